@@ -315,4 +315,3 @@ package ext
 //@   ghostset-at-entry wtN = 0
 //@   ghostset after WriteBinary: wtN = wtN + 1
 //@   top-ensures wtN == 1
-
